@@ -15,6 +15,9 @@ impl CompressionMethod {
 impl AtomicU64 {
 //@fn atomicu64_new
 //@| fn: src/types.rs | impl AtomicU64 | fn new
+//@| ret: r
+//@| ensures:
+//@|     r.0.g_val() == v,
 //@end
 //@fn atomicu64_load
 //@| fn: src/types.rs | impl AtomicU64 | fn load
@@ -24,6 +27,9 @@ impl AtomicU64 {
 //@end
 //@fn atomicu64_get_mut
 //@| fn: src/types.rs | impl AtomicU64 | fn get_mut
+//@| ret: r
+//@| ensures:
+//@|     *r == old(self).0.g_val() && final(self).0.g_val() == *final(r),
 //@end
 }
 //@impl src/types.rs | impl Clone for AtomicU64
